@@ -9,6 +9,7 @@ Go maps are modelled as association lists: faithful for documents without keys t
 (`noCaseCollision`, checked by the monitor on every generated document).
 -/
 import GoZero.C17.ProofsStd
+import GoZero.C17.Buf
 namespace GoZero.C17
 
 /-! ### format independence -/
@@ -477,4 +478,230 @@ theorem sorted_walk_is_the_model_on_collisions :
   have hs : sortDoc portDocB = portDocA := by decide
   simp only [loadJsonDet, hs]; rfl
 
+/-! ### round 5: the bytes between a front end and its consumer (`encodeToJSON` -> `LoadFromJsonBytes` / `UnmarshalJsonBytes`)
+
+`Buf.lean`: conversions and reads as events of ANY schedule.  With the buffer of the code that exists (a local
+`bytes.Buffer` per call, Tie `tie_encodeBufSite`) every read sees the bytes of the reader's own latest conversion -
+sequentially (convert A, convert B, read A) and under every interleaving of concurrent loads. -/
+
+def BufInv (s : BufSt) (m : Nat → Option Bytes) : Prop :=
+  (∀ who, (s.held who).bind (fun id => s.bufs[id]?) = m who) ∧ (∀ who id, s.held who = some id → id < s.bufs.length)
+
+theorem bufInv_conv (s : BufSt) (m : Nat → Option Bytes) (who : Nat) (c : Bytes) (h : BufInv s m) :
+    BufInv (bufStep .freshLocal s (.conv who c)).1 (updFn m who c) := by
+  obtain ⟨h1, h2⟩ := h
+  constructor
+  · intro w
+    simp only [bufStep, updFn]
+    by_cases hw : w = who
+    · simp [hw]
+    · simp only [hw, if_false]
+      rw [← h1 w]
+      cases hh : s.held w with
+      | none => simp
+      | some id =>
+        have := h2 w id hh
+        simp [List.getElem?_append_left this]
+  · intro w id hh
+    simp only [bufStep, updFn] at hh ⊢
+    by_cases hw : w = who
+    · simp [hw] at hh; subst hh; simp
+    · simp only [hw, if_false] at hh
+      have := h2 w id hh
+      simp; omega
+
+theorem conversion_results_stable_from (evs : List BufEv) : ∀ (s : BufSt) (m : Nat → Option Bytes), BufInv s m →
+    bufRun .freshLocal s evs = specRun m evs := by
+  induction evs with
+  | nil => intro s m _; rfl
+  | cons e es ih =>
+    intro s m h
+    cases e with
+    | conv who c =>
+      have h' := bufInv_conv s m who c h
+      simp only [bufRun, specRun]
+      have : (bufStep .freshLocal s (.conv who c)).2 = none := rfl
+      rw [this]
+      exact ih _ _ h'
+    | read who =>
+      simp only [bufRun, specRun, bufStep]
+      rw [h.1 who, ih s m h]
+
+theorem conversion_results_stable (evs : List BufEv) :
+    bufRun encodeSite {} evs = specRun (fun _ => none) evs :=
+  conversion_results_stable_from evs {} _ ⟨fun _ => rfl, fun _ _ h => by simp at h⟩
+
+
+/-- a later conversion by ANYONE does not reach a caller's read: `∃ pre` = whatever the earlier reads saw. -/
+def lastConv (init : Option Bytes) (who : Nat) : List BufEv → Option Bytes
+  | [] => init
+  | .conv w c :: es => lastConv (if w = who then some c else init) who es
+  | .read _ :: es => lastConv init who es
+
+theorem specRun_then_read (who : Nat) (evs : List BufEv) : ∀ (m : Nat → Option Bytes),
+    ∃ pre, specRun m (evs ++ [.read who]) = pre ++ [lastConv (m who) who evs] := by
+  induction evs with
+  | nil => intro m; exact ⟨[], rfl⟩
+  | cons e es ih =>
+    intro m
+    cases e with
+    | conv w c =>
+      obtain ⟨pre, hp⟩ := ih (updFn m w c)
+      refine ⟨pre, ?_⟩
+      simp only [List.cons_append, specRun, lastConv]
+      rw [hp]
+      by_cases hw : w = who
+      · subst hw; simp [updFn]
+      · have : who ≠ w := fun h => hw h.symm
+        simp [updFn, hw, this]
+    | read w =>
+      obtain ⟨pre, hp⟩ := ih m
+      exact ⟨m w :: pre, by simp only [List.cons_append, specRun, lastConv]; rw [hp]⟩
+
+theorem load_reads_own_document (who : Nat) (evs : List BufEv) :
+    ∃ pre, bufRun encodeSite {} (evs ++ [.read who]) = pre ++ [lastConv none who evs] := by
+  rw [conversion_results_stable]
+  exact specRun_then_read who evs _
+
+example : bufRun encodeSite {} [.conv 0 "A".toList, .conv 1 "B".toList, .read 0, .conv 0 "C".toList, .read 1, .read 0]
+    = [some "A".toList, some "B".toList, some "C".toList] := by decide
+
+theorem pooled_buffer_invalidates (a b : Bytes) :
+    bufRun .pooled {} [.conv 0 a, .conv 1 b, .read 0] = [some b] := by
+  simp [bufRun, bufStep, updFn]
+
+theorem pooled_concurrent_loads_swap (a b : Bytes) :
+    bufRun .pooled {} [.conv 0 a, .conv 1 b, .read 0, .read 1] = [some b, some b] ∧
+    specRun (fun _ => none) [.conv 0 a, .conv 1 b, .read 0, .read 1] = [some a, some b] := by
+  constructor
+  · simp [bufRun, bufStep, updFn]
+  · simp [specRun, updFn]
+
+theorem loads_schedule_independent {β : Type} (decode : Bytes → β) (evs : List BufEv) :
+    loadsUnder encodeSite decode evs = (specRun (fun _ => none) evs).map (Option.map decode) := by
+  unfold loadsUnder; rw [conversion_results_stable]
+
+/-! forwarding -/
+theorem fwd_yaml_bytes_sem {α : Type} (sem : String → List α → α) (content v dflt : α) (opts : List α) :
+    runFwd sem [content, v] opts dflt fwdYamlBytes = sem "UnmarshalJsonBytes" ([sem "encoding.YamlToJson" [content], v] ++ opts) := by
+  simp [runFwd, runFwdAux, evalArgs, fwdYamlBytes]
+
+theorem dropped_spread_loses_options {α : Type} (sem : String → List α → α) (content v dflt : α) (opts : List α) :
+    runFwd sem [content, v] opts dflt [⟨"encoding.YamlToJson", [.param 0]⟩, ⟨"UnmarshalJsonBytes", [.result 0, .param 1]⟩]
+      = sem "UnmarshalJsonBytes" [sem "encoding.YamlToJson" [content], v] := by
+  simp [runFwd, runFwdAux, evalArgs]
+/-! ### round 5: the delegating entry points through their DATA FLOW, for every option list -/
+
+theorem optsOfEVs_map (l : List MOpt) : optsOfEVs (l.map .opt) = some l := by
+  induction l with
+  | nil => rfl
+  | cons o r ih => simp [optsOfEVs, ih]
+
+theorem fwd_toml_bytes_sem {α : Type} (sem : String → List α → α) (content v dflt : α) (opts : List α) :
+    runFwd sem [content, v] opts dflt fwdTomlBytes = sem "UnmarshalJsonBytes" ([sem "encoding.TomlToJson" [content], v] ++ opts) := by
+  simp [runFwd, runFwdAux, evalArgs, fwdTomlBytes]
+
+theorem fwd_readers_sem {α : Type} (sem : String → List α → α) (reader v dflt : α) (opts : List α) :
+    runFwd sem [reader, v] opts dflt fwdYamlReader = sem "UnmarshalYamlBytes" ([sem "io.ReadAll" [reader], v] ++ opts) ∧
+    runFwd sem [reader, v] opts dflt fwdTomlReader = sem "UnmarshalTomlBytes" ([sem "io.ReadAll" [reader], v] ++ opts) := by
+  constructor <;> simp [runFwd, runFwdAux, evalArgs, fwdYamlReader, fwdTomlReader]
+
+theorem fwd_conf_loaders_sem {α : Type} (sem : String → List α → α) (content v dflt : α) (opts : List α) :
+    runFwd sem [content, v] opts dflt fwdConfYaml = sem "LoadFromJsonBytes" [sem "encoding.YamlToJson" [content], v] ∧
+    runFwd sem [content, v] opts dflt fwdConfToml = sem "LoadFromJsonBytes" [sem "encoding.TomlToJson" [content], v] := by
+  constructor <;> simp [runFwd, runFwdAux, evalArgs, fwdConfYaml, fwdConfToml]
+
+/-- **the whole configuration space of the mapping entry points**: for EVERY list of options the caller may pass (any
+length, order, repetitions), every type, every document without null: the five delegating entry points, run THROUGH their
+data flow (`fwd*`, equal to the extracted flow: Tie `tie_fwd*`), return what `UnmarshalJsonBytes` returns for the same
+list. -/
+theorem mapping_entry_points_all_option_lists (base oc : Opts) (opts : List MOpt) (fs : Fields) (d : J) (t : T)
+    (hd : plainDoc d = true) (ht : embT d = some t) :
+    semBase base oc fs "UnmarshalJsonBytes" (.jsonTree d :: .target :: opts.map .opt) = .res (unmarshalWith (applyMOpts base opts) fs d) ∧
+    runFwd (semBase base oc fs) [.yamlText (embY d), .target] (opts.map .opt) .bad fwdYamlBytes = .res (unmarshalWith (applyMOpts base opts) fs d) ∧
+    runFwd (semTop base oc fs) [.yamlText (embY d), .target] (opts.map .opt) .bad fwdYamlReader = .res (unmarshalWith (applyMOpts base opts) fs d) ∧
+    runFwd (semBase base oc fs) [.tomlText t, .target] (opts.map .opt) .bad fwdTomlBytes = .res (unmarshalWith (applyMOpts base opts) fs d) ∧
+    runFwd (semTop base oc fs) [.tomlText t, .target] (opts.map .opt) .bad fwdTomlReader = .res (unmarshalWith (applyMOpts base opts) fs d) := by
+  have hm := mapping_formats_agree (applyMOpts base opts) fs d t hd ht
+  unfold unmarshalYaml unmarshalToml at hm
+  have hy : runFwd (semBase base oc fs) [.yamlText (embY d), .target] (opts.map .opt) .bad fwdYamlBytes = .res (unmarshalWith (applyMOpts base opts) fs d) := by
+    rw [fwd_yaml_bytes_sem]; simp [semBase, optsOfEVs_map, hm.1]
+  have ht' : runFwd (semBase base oc fs) [.tomlText t, .target] (opts.map .opt) .bad fwdTomlBytes = .res (unmarshalWith (applyMOpts base opts) fs d) := by
+    rw [fwd_toml_bytes_sem]; simp [semBase, optsOfEVs_map, hm.2]
+  refine ⟨by simp [semBase, optsOfEVs_map], hy, ?_, ht', ?_⟩
+  · rw [(fwd_readers_sem _ _ _ _ _).1]; simp [semTop, hy]
+  · rw [(fwd_readers_sem _ _ _ _ _).2]; simp [semTop, ht']
+
+/-- the two converting loaders of package conf, through their data flow. -/
+theorem conf_loaders_through_flow (base oc : Opts) (fs : Fields) (d : J) (t : T) (hd : plainDoc d = true) (ht : embT d = some t) :
+    runFwd (semBase base oc fs) [.yamlText (embY d), .target] [] .bad fwdConfYaml = .res (loadJsonO oc fs d) ∧
+    runFwd (semBase base oc fs) [.tomlText t, .target] [] .bad fwdConfToml = .res (loadJsonO oc fs d) := by
+  have hm := formats_agree_env oc fs d t hd ht
+  unfold loadYamlO loadTomlO loadJsonO at hm
+  constructor
+  · rw [(fwd_conf_loaders_sem _ _ _ _ _).1]; simp [semBase, loadJsonO, hm.1]
+  · rw [(fwd_conf_loaders_sem _ _ _ _ _).2]; simp [semBase, loadJsonO, hm.2]
+
+def nameTyU : Fields := .cons { name := "Name".toList, key := "Name".toList, optional := false, embedded := false } (.prim .string) .nil
+
+/-- the options matter: `{"name":"b"}` into `struct{Name string `json:"Name"`}` is accepted with
+`WithCanonicalKeyFunc(strings.ToLower)` and rejected without - an entry point that drops `opts...` (seeded C17-2, C17-7:
+`dropped_spread_loses_options`) changes the verdict. -/
+theorem dropped_options_change_verdict :
+    unmarshalWith (applyMOpts {} [.canonLower]) nameTyU (.obj (.cons "name".toList (.str "b".toList) .nil))
+      = .ok (.struct (.cons "Name".toList (.str "b".toList) .nil)) ∧
+    unmarshalWith (applyMOpts {} []) nameTyU (.obj (.cons "name".toList (.str "b".toList) .nil)) = .error .err := by
+  constructor <;> (simp only [nameTyU, applyMOpts, List.foldl, MOpt.apply]; c17_eval; try decide)
+
+/-- repetitions and order of the options do not matter (each sets one flag). -/
+theorem applyMOpts_flags (base : Opts) (l : List MOpt) :
+    (applyMOpts base l).canon = (base.canon || l.contains .canonLower) ∧
+    (applyMOpts base l).fromString = (base.fromString || l.contains .stringValues) ∧
+    (applyMOpts base l).fromArray = (base.fromArray || l.contains .fromArray) ∧
+    (applyMOpts base l).opaqueKeys = (base.opaqueKeys || l.contains .opaqueKeys) := by
+  induction l generalizing base with
+  | nil => simp [applyMOpts]
+  | cons o r ih =>
+    have := ih (MOpt.apply base o)
+    simp only [applyMOpts, List.foldl] at this ⊢
+    cases o <;> simp_all [MOpt.apply, Bool.or_comm]
+
+example : (applyMOpts {} [.opaqueKeys, .canonLower, .opaqueKeys]).canon = true ∧ (applyMOpts {} [.opaqueKeys]).canon = false := by decide
+
+/-! ### round 5: the scalar layer at full strength for the fixed conversion -/
+/-- FULL scalar layer for the code with fixes/C17-float32-single-rounding.patch (`two = false`: the literal is rounded
+once, to the width of the field): EVERY primitive kind, float32 included, no hypothesis on the width.  The `_partial`
+statement above is what holds for the pinned conversion (`two = true`), where float32 is the counterexample
+`float32_double_rounding`. -/
+theorem agrees_with_std_json_scalar_fixed (p : Prim) (v : J) (a b : Val)
+    (hu : fillPrim false p v = .ok a) (hs : stdPrim p v = .ok b) : a = b := by
+  cases v with
+  | num lit =>
+    cases p with
+    | float n => simp only [fillPrim, stdPrim, convFromString] at hu hs; rw [hu] at hs; injection hs
+    | int n => simp only [fillPrim, stdPrim] at hu hs; rw [hu] at hs; injection hs
+    | uint n => simp only [fillPrim, stdPrim] at hu hs; rw [hu] at hs; injection hs
+    | bool => simp [fillPrim] at hu
+    | string => simp [fillPrim] at hu
+  | bool x => simp only [fillPrim, stdPrim] at hu hs; rw [hu] at hs; injection hs
+  | str x => simp only [fillPrim, stdPrim] at hu hs; rw [hu] at hs; injection hs
+  | null => simp [fillPrim] at hu
+  | nilArr => simp [fillPrim] at hu
+  | arr l => simp [fillPrim] at hu
+  | obj m => simp [fillPrim] at hu
+
+example : fillPrim false (.float 32) (.num "1.5".toList) = stdPrim (.float 32) (.num "1.5".toList) := by
+  simp [fillPrim, stdPrim, convFromString]
+/-- **the two-format scope** (documents that TOML cannot hold, e.g. integers in (MaxInt64, MaxUint64]): JSON and YAML agree
+for every document without null, with NO hypothesis about a TOML rendering - conf loaders under every option set /
+environment and the mapping entry points under every option LIST (monitor clause `format-dependent class=format-json-yaml`,
+seeded C17-6). -/
+theorem json_yaml_agree (o : Opts) (opts : List MOpt) (fs : Fields) (d : J) (hd : plainDoc d = true) :
+    loadYamlO o fs (embY d) = loadJsonO o fs d ∧
+    unmarshalYaml (applyMOpts o opts) fs (embY d) = unmarshalWith (applyMOpts o opts) fs d := by
+  unfold loadYamlO loadJsonO unmarshalYaml
+  rw [yaml_normal_form d hd]
+  exact ⟨rfl, rfl⟩
+
+example : plainDoc (.obj (.cons "id".toList (.num "18446744073709551615".toList) .nil)) = true := by decide
 end GoZero.C17
